@@ -61,6 +61,9 @@ type Term struct {
 	Args []*Term
 	Val  uint64
 	Name string
+	// Lo, Hi: conservative bounds of the value read as a signed integer of
+	// width W (bit-vector terms only). Used for width narrowing.
+	Lo, Hi int64
 }
 
 func (t *Term) IsConst() bool { return t.Op == OpConst }
@@ -124,6 +127,9 @@ func (c *Ctx) mk(op Op, w int, val uint64, name string, args []*Term) *Term {
 		return t
 	}
 	t := &Term{ID: len(c.Terms), Op: op, W: w, Args: args, Val: val, Name: name}
+	if w > 0 {
+		t.Lo, t.Hi = interval(t)
+	}
 	c.Terms = append(c.Terms, t)
 	c.table[k] = t
 	if op == OpVar {
@@ -148,6 +154,111 @@ func signExt(v uint64, w int) int64 {
 	}
 	return int64(v)
 }
+
+// ---------------------------------------------------------------- intervals and narrowing
+
+func fullRange(w int) (int64, int64) {
+	if w >= 64 {
+		return -1 << 63, 1<<63 - 1
+	}
+	return -(int64(1) << uint(w-1)), int64(1)<<uint(w-1) - 1
+}
+
+func inRange(lo, hi int64, w int) bool {
+	l, h := fullRange(w)
+	return lo >= l && hi <= h && lo <= hi
+}
+
+// interval computes conservative signed bounds for a freshly built term.
+func interval(t *Term) (int64, int64) {
+	w := t.W
+	fl, fh := fullRange(w)
+	small := func(x *Term) bool { // bounds far from overflow of int64 arithmetic
+		return x.Lo > -(1<<40) && x.Hi < (1<<40)
+	}
+	switch t.Op {
+	case OpConst:
+		v := signExt(t.Val, w)
+		return v, v
+	case OpIte:
+		a, b := t.Args[1], t.Args[2]
+		lo, hi := a.Lo, a.Hi
+		if b.Lo < lo {
+			lo = b.Lo
+		}
+		if b.Hi > hi {
+			hi = b.Hi
+		}
+		return lo, hi
+	case OpZext:
+		x := t.Args[0]
+		if x.Lo >= 0 {
+			return x.Lo, x.Hi
+		}
+		if x.W < 63 {
+			return 0, int64(1)<<uint(x.W) - 1
+		}
+	case OpSext:
+		x := t.Args[0]
+		return x.Lo, x.Hi
+	case OpAdd:
+		a, b := t.Args[0], t.Args[1]
+		if small(a) && small(b) {
+			lo, hi := a.Lo+b.Lo, a.Hi+b.Hi
+			if inRange(lo, hi, w) {
+				return lo, hi
+			}
+		}
+	case OpSub:
+		a, b := t.Args[0], t.Args[1]
+		if small(a) && small(b) {
+			lo, hi := a.Lo-b.Hi, a.Hi-b.Lo
+			if inRange(lo, hi, w) {
+				return lo, hi
+			}
+		}
+	case OpExtract:
+		x := t.Args[0]
+		if t.Val&0xff == 0 && inRange(x.Lo, x.Hi, w) {
+			return x.Lo, x.Hi
+		}
+	}
+	return fl, fh
+}
+
+// NarrowW is the width at which small integer computations are carried out.
+const NarrowW = 16
+
+func fitsNarrow(t *Term) bool { return t.Lo >= -(1<<15) && t.Hi <= (1<<15)-1 }
+
+// tryNarrow returns a NarrowW-bit term with the same signed value as t, or nil
+// if t is not known to fit or has no cheap narrow form.
+func (c *Ctx) tryNarrow(t *Term) *Term {
+	if t.W <= NarrowW || !fitsNarrow(t) {
+		return nil
+	}
+	switch t.Op {
+	case OpConst:
+		return c.BV(t.Val, NarrowW)
+	case OpSext:
+		x := t.Args[0]
+		if x.W == NarrowW {
+			return x
+		}
+		if x.W < NarrowW {
+			return c.Sext(x, NarrowW)
+		}
+	case OpZext:
+		x := t.Args[0]
+		if x.W < NarrowW {
+			return c.Zext(x, NarrowW)
+		}
+	}
+	return nil
+}
+
+// widen wraps a narrow term back to width w (sign extension).
+func (c *Ctx) widen(t *Term, w int) *Term { return c.Sext(t, w) }
 
 // ---------------------------------------------------------------- constructors
 
@@ -289,6 +400,11 @@ func (c *Ctx) Ite(cond, a, b *Term) *Term {
 	if a.Op == OpIte && a.Args[0] == cond {
 		return c.Ite(cond, a.Args[1], b)
 	}
+	if a.W > NarrowW {
+		if na, nb := c.tryNarrow(a), c.tryNarrow(b); na != nil && nb != nil {
+			return c.widen(c.Ite(cond, na, nb), a.W)
+		}
+	}
 	return c.mk(OpIte, a.W, 0, "", []*Term{cond, a, b})
 }
 
@@ -335,6 +451,16 @@ func (c *Ctx) Eq(a, b *Term) *Term {
 	if a.Op == OpConst {
 		a, b = b, a
 	}
+	if a.W > NarrowW {
+		na, nb := c.tryNarrow(a), c.tryNarrow(b)
+		if na != nil && nb != nil {
+			return c.Eq(na, nb)
+		}
+		// one side narrow, the other a constant outside the narrow range
+		if na != nil && b.Op == OpConst {
+			return c.False
+		}
+	}
 	if a.W == 0 {
 		if b.Op == OpConst {
 			if b.Val == 1 {
@@ -378,6 +504,19 @@ func (c *Ctx) binArith(op Op, a, b *Term) *Term {
 	w := a.W
 	if a.Op == OpConst && b.Op == OpConst {
 		return c.BV(foldBin(op, a.Val, b.Val, w), w)
+	}
+	if w > NarrowW && (op == OpAdd || op == OpSub) {
+		if na, nb := c.tryNarrow(a), c.tryNarrow(b); na != nil && nb != nil {
+			var lo, hi int64
+			if op == OpAdd {
+				lo, hi = a.Lo+b.Lo, a.Hi+b.Hi
+			} else {
+				lo, hi = a.Lo-b.Hi, a.Hi-b.Lo
+			}
+			if lo >= -(1<<15) && hi <= (1<<15)-1 {
+				return c.widen(c.binArith(op, na, nb), w)
+			}
+		}
 	}
 	switch op {
 	case OpAdd:
@@ -591,6 +730,26 @@ func (c *Ctx) cmp(op Op, a, b *Term) *Term {
 	if a == b {
 		return c.Bool(op == OpUle || op == OpSle)
 	}
+	if a.W > NarrowW {
+		na, nb := c.tryNarrow(a), c.tryNarrow(b)
+		if na != nil && nb != nil {
+			switch op {
+			case OpSlt, OpSle:
+				return c.cmp(op, na, nb)
+			case OpUlt, OpUle:
+				if a.Lo >= 0 && b.Lo >= 0 {
+					return c.cmp(op, na, nb)
+				}
+			}
+		}
+		// narrow value against a constant outside the narrow range
+		if na != nil && b.Op == OpConst && (op == OpSlt || op == OpSle) {
+			return c.Bool(signExt(b.Val, b.W) > a.Hi)
+		}
+		if nb != nil && a.Op == OpConst && (op == OpSlt || op == OpSle) {
+			return c.Bool(signExt(a.Val, a.W) < b.Lo)
+		}
+	}
 	if b.Op == OpConst && a.Op == OpIte {
 		budget := 400
 		if iteConstLeafs(a, &budget) {
@@ -690,7 +849,7 @@ func (c *Ctx) Zext(a *Term, w int) *Term {
 	if a.Op == OpZext {
 		return c.Zext(a.Args[0], w)
 	}
-	if a.Op == OpIte {
+	if a.Op == OpIte && w <= NarrowW {
 		budget := 200
 		if iteConstLeafs(a, &budget) {
 			return c.liftCmp(a, func(l *Term) *Term { return c.BV(l.Val, w) })
@@ -712,7 +871,7 @@ func (c *Ctx) Sext(a *Term, w int) *Term {
 	if a.Op == OpZext {
 		return c.Zext(a.Args[0], w)
 	}
-	if a.Op == OpIte {
+	if a.Op == OpIte && w <= NarrowW {
 		budget := 200
 		if iteConstLeafs(a, &budget) {
 			return c.liftCmp(a, func(l *Term) *Term { return c.BV(uint64(signExt(l.Val, a.W)), w) })
@@ -935,5 +1094,34 @@ func (t *Term) str(depth int) string {
 		}
 		sb.WriteString(")")
 	}
+	return sb.String()
+}
+
+// Script renders a standalone SMT-LIB2 script asserting all the given Bool
+// terms (shared subterms named once), ending in (check-sat).
+func Script(terms []*Term) string {
+	var sb strings.Builder
+	sb.WriteString("(set-logic QF_BV)\n")
+	done := map[int]bool{}
+	var walk func(t *Term)
+	walk = func(t *Term) {
+		if t.Op == OpConst || done[t.ID] {
+			return
+		}
+		done[t.ID] = true
+		if t.Op == OpVar {
+			fmt.Fprintf(&sb, "(declare-const %s %s)\n", Ref(t), SortName(t.W))
+			return
+		}
+		for _, a := range t.Args {
+			walk(a)
+		}
+		fmt.Fprintf(&sb, "(declare-const %s %s)\n(assert (= %s %s))\n", Ref(t), SortName(t.W), Ref(t), Body(t))
+	}
+	for _, t := range terms {
+		walk(t)
+		fmt.Fprintf(&sb, "(assert %s)\n", Ref(t))
+	}
+	sb.WriteString("(check-sat)\n")
 	return sb.String()
 }
